@@ -132,3 +132,8 @@ def _r17_5(ctx):
     ctx.ob('R17.5', b.n, f'first_index_height = {what} only when the address index is off', off,
            f'this start height is also used with --index-addresses: outputs created below it never enter SCRIPT_PUBKEY_TO_OUTPOINT (guards: {[g for g in gs if "Statistic::" in g]})', where(b, d['line']))
   ctx.ob('R17.5', b.n, 'a definition first_index_height = 0 exists', n_zero >= 1, '', where(b, b.line), nontrivial=False)
+
+
+# sensitivity pack (thorough tier): each seeded edit must be reported by the named rule instance
+MUTANTS = [{'name': 'seeded-C17-a', 'patch': 'C17-a/patch.diff', 'expect': ('R17.3', 'index_transaction_output_script_pubkeys', 'SCRIPT_PUBKEY_TO_OUTPOINT')},
+           {'name': 'seeded-C17-b', 'patch': 'C17-b/patch.diff', 'expect': ('R17.5', 'open_with_event_sender', 'first_index_height')}]
